@@ -385,7 +385,7 @@ def _base_record(job, u, sstore, r0, rrefs):
     return {
         "tid": job["tid"], "U": L.universe_json(u), "op": job["op"], "snd": "d", "rcv": "d",
         "sstore": _objs(sstore), "srefs": _objs(set(_sender_refs(job).values())),
-        "r0": _objs(r0), "rtips0": _objs(set(rrefs.values())), "r1": [], "rtips1": [], "runk": 0, "idbad": 0,
+        "r0": _objs(r0), "rtips0": _objs(set(rrefs.values())), "r1": [], "rtips1": [], "runk": 0, "idbad": 0, "gitok": 2,
         "wants": [list(w) for w in job["wants"]], "forged": int(job.get("forged", 0)),
         "inctag": int(bool(caps.get("inctag")) and job["op"] != "push" and job["transport"] not in ("local", "localpack")),
         "mwants": [list(w) for w in job["wants"]], "ok": 0, "cap": 0, "sent": [], "sunk": 0, "thin": [],
@@ -430,12 +430,12 @@ def _run_job(job):
                 gk, gu = u.names(gobjs.keys())
                 rec["info"]["git_objects_agree"] = int(sorted(gk) == sorted(known) and len(gu) == unk)
                 if not rec["info"]["git_objects_agree"]:
-                    rec["idbad"] += 1
                     rec["info"]["git_objects"] = _objs(gk)
                 ok, txt = L.git_fsck_connectivity(rpath)
                 rec["info"]["fsck_ok"] = int(ok)
                 if not ok:
                     rec["info"]["fsck"] = txt[-400:]
+                rec["gitok"] = int(ok and rec["info"]["git_objects_agree"])
         return [rec]
     finally:
         if not job.get("keep"):
@@ -628,7 +628,7 @@ def fetch_gitclient(job, u, spath, rpath, rec):
                 sent_wants.append(list(o))
     if sent_wants:
         rec["info"]["asked"] = rec["wants"]
-        rec["wants"] = sorted(sent_wants)
+        rec["wants"] = rec["mwants"] = sorted(sent_wants)
     n_conn = sum(1 for d, pk in slog if d == "r" and pk and pk.startswith(b"want ") and b" " in pk[46:])
     rec["info"]["connections"] = n_conn
     rec["srv"] = (_dialogue(u, slog, "srv") or []) if n_conn == 1 else []
@@ -663,7 +663,7 @@ def clone_generic(job, u, spath, rpath, rec, client, path, srv=None):
                 rec["info"]["server_error"] = serr[-1][:200]
     if tee.buf.tell():
         _finish_capture(rec, u, tee.buf.getvalue())
-    rec["wants"] = rec["srefs"]          # a clone asks for every advertised ref
+    rec["wants"] = rec["mwants"] = rec["srefs"]          # a clone asks for every advertised ref
     rec["hk"], rec["haves"] = 1, []
 
 
@@ -707,7 +707,7 @@ def clone_gitclient(job, u, spath, rpath, rec):
             rec["inctag"] = int(b"include-tag" in cl)
             break
     rec["srv"] = _dialogue(u, slog, "srv") or []
-    rec["wants"] = rec["srefs"]
+    rec["wants"] = rec["mwants"] = rec["srefs"]
     if os.path.exists(packfile):
         with open(packfile, "rb") as f:
             _finish_capture(rec, u, f.read())
